@@ -61,8 +61,15 @@ def stepCheck (a : Acc) (op : Rec) (obs : List Rec) : Acc := Id.run do
         else if x.2 != y.2 then a := a.fail "add: another shield changed"
   | "remove" =>
     let key := op.int "key"
-    let expected := prev.filter (·.1 != key)
-    if !sameList now expected then a := a.fail "remove: list is not the previous list without the key"
+    let without := prev.filter (·.1 != key)
+    -- with a listener that answers the removal with a backup shield (op fields rekey / rehp): that shield is on the unit afterwards
+    let expected : SList :=
+      if op.has "rekey" && prev.any (·.1 == key) then
+        let rk := op.int "rekey"
+        if without.any (·.1 == rk) then without.map fun p => if p.1 == rk then (rk, op.flt "rehp") else p
+        else without ++ [(rk, op.flt "rehp")]
+      else without
+    if !sameList now expected then a := a.fail "remove: list is not the previous list without the key (plus the shield a listener of the removal added)"
     let want : List Int := if prev.any (·.1 == key) then [key] else []
     if removedEvs != want then a := a.fail "remove: removal not announced exactly once"
   | "absorb" =>
